@@ -375,6 +375,34 @@ func dictFault(r *model.Rand, b *Base, chord bool) string {
 	return path
 }
 
+// genAttrUse: a user attribute whose degree sits at the edge of a range, and
+// a command that has to compute with it.
+func (p *C09) genAttrUse(r *model.Rand) Base {
+	deg := model.Pick(r, append([]string{"9000000000000000000", "18446744073709551615", "b9223372036854775808", "#4611686018427387904", "1000000", "65536", "bb1", "##64", "0", "b0"}, model.EdgeInts...))
+	attr := "- name: Far\n  degree: \"" + deg + "\"\n"
+	chordY := "- name: FarChord\n  meta:\n    display: far\n  attributes:\n    - Perfect1\n    - Far\n"
+	files := map[string]*simrt.FileSpec{"/sim/far-attr.yml": {Data: []byte(attr)}, "/sim/far-chord.yml": {Data: []byte(chordY)}}
+	var b Base
+	switch r.Intn(5) {
+	case 0:
+		b = Base{Argv: []string{"info", "attr", "describe", "-t", "Far", "-r", model.Pick(r, roots)}, Class: "info"}
+		if r.Chance(1, 2) {
+			b.Argv = append(b.Argv, "-s")
+		}
+	case 1:
+		b = Base{Argv: []string{"info", "chord", "describe", "-t", "Cfar"}, Class: "info"}
+	case 2:
+		b = Base{Argv: []string{"info", "attr", "list"}, Class: "info"}
+	default:
+		cmd := model.Pick(r, [][]string{{"write"}, {"write", "event"}, {"write", "parse"}})
+		doc := "- chord:\n    degree: \"1\"\n    name: \"far\"\n  values:\n    - \"1\"\n"
+		b = Base{Argv: append([]string{}, cmd...), Input: []byte(doc), InputArg: true, Class: "doc"}
+	}
+	b.Files = files
+	b.Argv = append(b.Argv, "--attr", "/sim/far-attr.yml", "--chord", "/sim/far-chord.yml")
+	return b
+}
+
 // genDictUse draws a command that uses the entries of a faulty chord
 // dictionary (inheritance chains that dangle or loop, odd shapes).
 func (p *C09) genDictUse(r *model.Rand) (Base, string) {
@@ -393,6 +421,9 @@ func (p *C09) genDictUse(r *model.Rand) (Base, string) {
 		{"- name: NoAttr\n  meta:\n    display: noattr\n  attributes:\n    - Missing7\n", []string{"NoAttr", "noattr"}},
 		{"- name: Empty\n  meta:\n    display: empty\n  attributes: []\n  extends: \"\"\n", []string{"Empty", "empty"}},
 		{"- name: Dup\n  meta:\n    display: dup\n  attributes:\n    - Perfect1\n- name: Dup\n  meta:\n    display: dup\n  extends: Dup\n", []string{"Dup", "dup"}},
+	}
+	if r.Chance(1, 4) {
+		return p.genAttrUse(r), ""
 	}
 	d := model.Pick(r, dicts)
 	nm := model.Pick(r, d.names)
@@ -518,7 +549,14 @@ func (p *C09) genNonsense(r *model.Rand) (*nonsense, []string) {
 	case 11:
 		return mk("unknown-chord", "yaml", 0, writeStep(wcmd, yamlPre+"- chord:\n    degree: \"1\"\n    name: \""+p.unknownSym(r, []string{"foo", "minor", "M", "7 ", "maj", "Minor Triad", "m 7"})+"\"\n  values:\n    - \"1\"\n"+yamlPost, seed))
 	case 12:
-		st := writeStep([]string{"conv", "-c", model.Pick(r, []string{"zzz", "CMT", "cmt,zzz", "x"})}, goodInst+yamlPost, seed)
+		doc := goodInst + yamlPost
+		switch r.Intn(4) {
+		case 0:
+			doc = "- values:\n    - \"1\"\n- values:\n    - \"2\"\n" // no chord at all
+		case 1:
+			doc = "- values:\n    - \"1\"\n" + goodInst // a rest first
+		}
+		st := writeStep([]string{"conv", "-c", model.Pick(r, []string{"zzz", "CMT", "cmt,zzz", "x", "zzz,cmt"})}, doc, seed)
 		return mk("unknown-modifier", "flag", 0, st)
 	case 13:
 		k := model.Pick(r, model.UnsupportedKeys)
